@@ -333,6 +333,7 @@ func init() {
 			}
 			if n%2 == 0 {
 				p.Cfg.Notes["mode"] = "endpoint"
+				p.Cfg.Store = Pick(r, "mem", "sqlite")
 				return p
 			}
 			p.Cfg.Notes["mode"] = "peers"
@@ -423,10 +424,33 @@ func init() {
 			ld := w.Logs[0]
 			known, _ := w.KnownLogs()
 			signers, _ := w.Signers()
-			realW, err := witness.New(witness.Opts{Persistence: inmemory.NewPersistence(), Signers: signers, KnownLogs: known})
+			// half of the runs on file-backed SQLite with the production one-connection pool: there a request that leaves a
+			// transaction open leaves every later request unanswered
+			store, closeStore, err := openStoreFor(p)
 			if err != nil {
 				out.Infra = []string{err.Error()}
 				return out
+			}
+			defer closeStore()
+			realW, err := witness.New(witness.Opts{Persistence: store, Signers: signers, KnownLogs: known})
+			if err != nil {
+				out.Infra = []string{err.Error()}
+				return out
+			}
+			// serve delivers one request and reports false if it was not answered within 10 s of wall-clock time
+			serve := func(rec *httptest.ResponseRecorder, hr *http.Request, hh http.Handler) (answered bool, pan any) {
+				done := make(chan struct{})
+				go func() {
+					defer close(done)
+					defer func() { pan = recover() }()
+					hh.ServeHTTP(rec, hr)
+				}()
+				select {
+				case <-done:
+					return true, pan
+				case <-time.After(10 * time.Second):
+					return false, nil
+				}
 			}
 			witV, _ := f_note.NewVerifierForCosignatureV1(w.WitKeys[1].Key.VerifierString())
 			cl, _ := config.NewLog(ld.Origin, ld.Key.VerifierString(), "http://unused/")
@@ -440,6 +464,10 @@ func init() {
 				op := genUpdate(r, pf, 0, 2)
 				if op.M == "unknownlog" || op.M == "crosslog" || op.M == "xsig_unknown" || op.M == "prime_other" {
 					op.M = ""
+				}
+				if (i == 0 || r.Chance(0.05)) && r.Chance(0.5) {
+					// a genuine checkpoint padded with junk signature lines up to the note format's limit
+					op = Op{K: "update", L: 0, D: uint64(r.Range(1, 5)), M: "xsig_unknown", MV: uint64(r.Range(95, 100))}
 				}
 				req := resolveUpdate(w, op, tracked)
 				body := wireBody(req.Old, req.Proof, req.CP)
@@ -480,24 +508,31 @@ func init() {
 					// keep the witness state in step with the full run
 					if mut == "none" && endAt < 0 && errAt < 0 {
 						rec := httptest.NewRecorder()
-						h.ServeHTTP(rec, httptest.NewRequest(http.MethodPost, "/", bytes.NewReader(body)))
+						if ok, _ := serve(rec, httptest.NewRequest(http.MethodPost, "/", bytes.NewReader(body)), h); !ok {
+							out.Infra = []string{"replay: an earlier request was not answered"}
+							return out
+						}
 						if cur, err := realW.GetCheckpoint(ld.ID); err == nil {
 							tracked = parseStored(cur)
 						}
 					}
 					continue
 				}
-				var code int
-				var pan any
-				func() {
-					defer func() { pan = recover() }()
-					rec := httptest.NewRecorder()
-					hr := httptest.NewRequest(http.MethodPost, "/", &faultyReader{data: body, chunks: NewRng(cs), maxChunk: chunk, endAt: endAt, errAt: errAt})
-					hr.ContentLength = -1
-					h.ServeHTTP(rec, hr)
-					code = rec.Code
-				}()
+				rec := httptest.NewRecorder()
+				hr := httptest.NewRequest(http.MethodPost, "/", &faultyReader{data: body, chunks: NewRng(cs), maxChunk: chunk, endAt: endAt, errAt: errAt})
+				hr.ContentLength = -1
+				answered, pan := serve(rec, hr, h)
 				out.Evals++
+				if !answered {
+					q := p.Clone()
+					q.Cfg.Extra["only"] = int64(i + 1)
+					out.FailPlan = q
+					out.Hung = true
+					out.Events = []string{fmt.Sprintf("request %d mut=%s", i, mut)}
+					out.Viol = []Violation{{Class: "hang", Sig: "hang/endpoint", Detail: fmt.Sprintf("request %d (mutation %s, %d bytes) to the add-checkpoint endpoint (store %s) was not answered within 10 s of wall-clock time; an earlier request of this run has left the witness unable to serve", i, mut, len(body), p.Cfg.Store)}}
+					return out
+				}
+				code := rec.Code
 				if pan != nil || !documentedStatuses[code] {
 					q := p.Clone()
 					q.Cfg.Extra["only"] = int64(i + 1)
